@@ -49,14 +49,29 @@ def run(ctx):
                where=where(col, c))
         # comprehension covers all objects
         comp = pm.get(c)
-        while comp is not None and not isinstance(comp, (ast.ListComp, ast.GeneratorExp, ast.For)):
+        while comp is not None and not isinstance(comp, (ast.ListComp, ast.GeneratorExp, ast.For, ast.AsyncFor)):
             comp = pm.get(comp)
-        ok = isinstance(comp, ast.ListComp) and any(A.norm(gen.iter) == "collect_objects" for gen in comp.generators)
+        if isinstance(comp, ast.ListComp):
+            ok = any(A.norm(gen.iter) == "collect_objects" for gen in comp.generators)
+        else:
+            # explicit loops: `for obj in collect_objects:` around the (async) loop over the documents, nothing skipping an object
+            chain_ = []
+            up_ = comp
+            while up_ is not None and up_ is not col.node:
+                if isinstance(up_, (ast.For, ast.AsyncFor)):
+                    chain_.append(up_)
+                if isinstance(up_, (ast.If, ast.Try, ast.While)):
+                    chain_.append(None)
+                up_ = pm.get(up_)
+            ok = None not in chain_ and any(A.norm(l_.iter) == "collect_objects" for l_ in chain_) and \
+                not any(isinstance(x, (ast.Break, ast.Continue, ast.Return)) for l_ in chain_ for x in A.walk_stmts(l_.body))
         ctx.ob("C45.D2-single-min-index", cname(col, None, "asset docs gathered from every collected object"), ok,
                "" if ok else "not every collected object is asked for its asset documents", where=where(col, c))
     txt = A.norm(col.node)
-    ok = "indices = [check_supports(obj, WritesStreamAssets).get_index for obj in collect_objects]" in txt and \
-        "coros = [maybe_await(get_index()) for get_index in indices]" in txt
+    built = "indices = [check_supports(obj, WritesStreamAssets).get_index for obj in collect_objects]" in txt or any(
+        isinstance(s_, ast.For) and A.norm(s_.iter) == "collect_objects" and isinstance(s_.target, ast.Name)
+        and [A.norm(x) for x in A.body(s_.body)] == [f"indices.append(check_supports({s_.target.id}, WritesStreamAssets).get_index)"] for s_ in A.walk_stmts(col.node.body))
+    ok = built and "coros = [maybe_await(get_index()) for get_index in indices]" in txt
     ctx.ob("C45.D2-single-min-index", cname(col, None, "one get_index per collected object feeds the minimum"), ok,
            "" if ok else "the minimum is not taken over every collected object", where=where(col, col.node))
     # the minimum index really reaches the devices: the forwarding helper passes `index` on as it is.  0 is a valid common index
